@@ -90,7 +90,7 @@ class C12(Machine):
         cfg = {"kind": kind, "route": route, "labels": labs, "addr_seed": rng.getrandbits(32),
                "rooted": rng.choice([True, False, None]), "encoded": rng.random() < 0.4, "annotated": rng.random() < 0.7,
                "bound": rng.random() < 0.6, "extra_attr": rng.random() < 0.4, "dt": rng.choice(["dna", "standard"])}
-        init = {"trees": [gen.tree_spec(rng, labs, rng.choice(["binary", "poly", "caterpillar"]), rng.choice(["int", "float", "none"]),
+        init = {"trees": [gen.tree_spec(rng, labs, rng.choice(["binary", "poly", "caterpillar", "unifurc"]), rng.choice(["int", "float", "none"]),
                                         internal_labels=rng.random() < 0.4) for _ in range(rng.randint(1, 3))],
                 "rows": gen.sequences(rng, labs, rng.randint(1, 6), "ACGT-?N" if cfg["dt"] == "dna" else "01?-")}
         if kind == "tree" and rng.random() < 0.01:
@@ -314,7 +314,7 @@ class C12(Machine):
                 names.append(("cp", "copy_of_copy"))
                 continue
             if m == "recopy" and depth == "extract":
-                continue        # extraction restructures (suppresses unifurcations): only the pristine tree is compared
+                continue        # (a mutated source may refer to taxa outside the namespace, which an extraction shares by design)
             if m == "recopy":
                 # a further copy of the (by now mutated) source through the same route: same obligations
                 try:
